@@ -360,6 +360,29 @@ structure Cfg (descs : List Desc) (rank : Nat → Nat) : Prop where
 theorem openCache_same {st st' : State} {s : Nat} (h : st'.scope = st.scope) (ho : OpenCache st s) : OpenCache st' s := by
   unfold OpenCache; rw [h]; exact ho
 
+/-- the identity of a nil result-object field is cached as constructed-without-value -/
+theorem markAbsent_store (st : State) (s : Nat) (sibs0 : List Desc) (nil? : Option Nat)
+    (hl : ∀ d ∈ sibs0, d.life ≠ .singleton) (h : OpenCache st s) :
+    StoreStep st (markAbsent st s sibs0 nil?) s ∧
+    ∀ k dk, nil? = some k → sibs0[k]? = some dk → dk.life = .scoped → Cached (markAbsent st s sibs0 nil?) s dk.ident := by
+  unfold markAbsent
+  split
+  next k =>
+    split
+    next dk hk =>
+      obtain ⟨h1, h1c⟩ := shareInstance_store st s dk dk.ident .absent (hl dk (List.mem_of_getElem? hk)) h
+      refine ⟨h1, ?_⟩
+      intro k' dk' hk' hdk' hsc
+      injection hk' with hk'; subst hk'
+      rw [hk] at hdk'; injection hdk' with hdk'; subst hdk'
+      exact h1c hsc
+    next hnone =>
+      refine ⟨StoreStep.refl st s h, ?_⟩
+      intro k' dk' hk' hdk' _
+      injection hk' with hk'; subst hk'
+      rw [hnone] at hdk'; cases hdk'
+  · exact ⟨StoreStep.refl st s h, fun k dk hk => by cases hk⟩
+
 /-- the step "log the successful event, then store" packaged as an `SRes` from the state after
 argument building -/
 theorem sres_event_store {descs : List Desc} {rank : Nat → Nat} {st2 st3 st4 : State} {s R : Nat} (inv : SInv descs st2)
@@ -379,7 +402,7 @@ theorem sres_event_store {descs : List Desc} {rank : Nat → Nat} {st2 st3 st4 :
     apply hstore.grows
     unfold Cached at hk ⊢; rw [h3scope]; exact hk
 
-theorem scopedOnce (beh : Beh) (hnil : NoNilOutputs beh) (descs : List Desc) (rank : Nat → Nat) (cfg : Cfg descs rank) :
+theorem scopedOnce (beh : Beh) (descs : List Desc) (rank : Nat → Nat) (cfg : Cfg descs rank) :
     ∀ fuel,
     (∀ st s ty key R, SInv descs st → OpenCache st s → s < st.nscopes →
       (∀ t, findService descs ty key = some t → rank t.ctor < R) →
@@ -560,38 +583,57 @@ theorem scopedOnce (beh : Beh) (hnil : NoNilOutputs beh) (descs : List Desc) (ra
               · subst h; exact hc hsc
               · rw [cfg.reg.voidAlone d hd hvoid] at h; simp at h
             next hmulti =>
-              simp only [hnil d.ctor, markAbsent_none]
-              generalize hsibs' : (if (d.sibs.filterMap (findDesc (bumpInv ra.1 d.ctor).descs)).isEmpty then [d]
-                else d.sibs.filterMap (findDesc (bumpInv ra.1 d.ctor).descs)) = sibs'
-              have hs'life : ∀ sd ∈ sibs', sd.life = d.life := by
-                rw [← hsibs']; split
+              have h0life : ∀ sd ∈ (if (d.sibs.filterMap (findDesc (bumpInv ra.1 d.ctor).descs)).isEmpty then [d]
+                  else d.sibs.filterMap (findDesc (bumpInv ra.1 d.ctor).descs)), sd.life = d.life := by
+                split
                 · intro sd hsd; simp at hsd; subst hsd; rfl
                 · exact hsiblife
-              have hdin : d ∈ sibs' := by
-                rw [← hsibs']
-                split
-                · simp
-                next hne =>
-                  rcases hself with h | h
-                  · rw [h] at hne; simp at hne
-                  · exact h
-              obtain ⟨hst, _, hc⟩ := storeOuts_store s sibs' (allocOuts (bumpInv ra.1 d.ctor).next sibs'.length)
-                (logEv (alloc (bumpInv ra.1 d.ctor) sibs'.length d.ctor ((bumpInv ra.1 d.ctor).invs d.ctor))
-                  (.ctor d.id d.ctor ((bumpInv ra.1 d.ctor).invs d.ctor) s args (allocOuts (bumpInv ra.1 d.ctor).next sibs'.length)))
-                (fun sd hsd => by rw [hs'life sd hsd]; exact hl) (by simp [allocOuts]) (openCache_same rfl ho2)
-              refine (hAR.trans hbump).trans (sres_event_store
-                (st3 := logEv (alloc (bumpInv ra.1 d.ctor) sibs'.length d.ctor ((bumpInv ra.1 d.ctor).invs d.ctor))
-                  (.ctor d.id d.ctor ((bumpInv ra.1 d.ctor).invs d.ctor) s args (allocOuts (bumpInv ra.1 d.ctor).next sibs'.length)))
-                inv2 d hd ho2 hs2 hzero2 hR _ args _ rfl rfl rfl rfl hst ?_)
-              intro hsc d' hd' hdc
-              have hin : d' ∈ sibs' := by
+              have h0all : ∀ d' ∈ descs, d'.ctor = d.ctor →
+                  d' ∈ (if (d.sibs.filterMap (findDesc (bumpInv ra.1 d.ctor).descs)).isEmpty then [d]
+                    else d.sibs.filterMap (findDesc (bumpInv ra.1 d.ctor).descs)) := by
+                intro d' hd' hdc
                 rcases hsame d' hd' hdc with h | h
-                · subst h; exact hdin
-                · rw [← hsibs']
+                · subst h
                   split
+                  · simp
+                  next hne =>
+                    rcases hself with h | h
+                    · rw [h] at hne; simp at hne
+                    · exact h
+                · split
                   next he => rw [List.isEmpty_iff.1 he] at h; simp at h
                   · exact h
-              exact hc d' hin (by rw [hs'life d' hin]; exact hsc)
+              have hmultiS : ∀ (sibs' sibs0 : List Desc) (nil? : Option Nat), (∀ sd ∈ sibs', sd.life = d.life) →
+                  (∀ sd ∈ sibs0, sd.life = d.life) →
+                  (∀ d' ∈ sibs0, d' ∈ sibs' ∨ ∃ k, nil? = some k ∧ sibs0[k]? = some d') →
+                  (∀ d' ∈ descs, d'.ctor = d.ctor → d' ∈ sibs0) →
+                  SRes descs rank st (markAbsent (storeOuts
+                    (logEv (alloc (bumpInv ra.1 d.ctor) sibs'.length d.ctor ((bumpInv ra.1 d.ctor).invs d.ctor))
+                      (.ctor d.id d.ctor ((bumpInv ra.1 d.ctor).invs d.ctor) s args
+                        (allocOuts (bumpInv ra.1 d.ctor).next sibs'.length)))
+                    s sibs' (allocOuts (bumpInv ra.1 d.ctor).next sibs'.length)).1 s sibs0 nil?) s R := by
+                intro sibs' sibs0 nil? hs'life hs0life hcover hall
+                obtain ⟨hst, _, hc⟩ := storeOuts_store s sibs' (allocOuts (bumpInv ra.1 d.ctor).next sibs'.length)
+                  (logEv (alloc (bumpInv ra.1 d.ctor) sibs'.length d.ctor ((bumpInv ra.1 d.ctor).invs d.ctor))
+                    (.ctor d.id d.ctor ((bumpInv ra.1 d.ctor).invs d.ctor) s args (allocOuts (bumpInv ra.1 d.ctor).next sibs'.length)))
+                  (fun sd hsd => by rw [hs'life sd hsd]; exact hl) (by simp [allocOuts]) (openCache_same rfl ho2)
+                obtain ⟨hst2, hc2⟩ := markAbsent_store _ s sibs0 nil? (fun sd hsd => by rw [hs0life sd hsd]; exact hl) hst.opened
+                refine (hAR.trans hbump).trans (sres_event_store
+                  (st3 := logEv (alloc (bumpInv ra.1 d.ctor) sibs'.length d.ctor ((bumpInv ra.1 d.ctor).invs d.ctor))
+                    (.ctor d.id d.ctor ((bumpInv ra.1 d.ctor).invs d.ctor) s args (allocOuts (bumpInv ra.1 d.ctor).next sibs'.length)))
+                  inv2 d hd ho2 hs2 hzero2 hR _ args _ rfl rfl rfl rfl (hst.trans hst2) ?_)
+                intro hsc d' hd' hdc
+                have hin0 := hall d' hd' hdc
+                rcases hcover d' hin0 with hin | ⟨k, hk, hget⟩
+                · exact hst2.grows _ (hc d' hin (by rw [hs'life d' hin]; exact hsc))
+                · exact hc2 k d' hk hget (by rw [hs0life d' hin0]; exact hsc)
+              generalize (if (d.sibs.filterMap (findDesc (bumpInv ra.1 d.ctor).descs)).isEmpty then [d]
+                  else d.sibs.filterMap (findDesc (bumpInv ra.1 d.ctor).descs)) = sibs0 at h0life h0all ⊢
+              cases beh.nilField d.ctor ((bumpInv ra.1 d.ctor).invs d.ctor) with
+              | none => exact hmultiS sibs0 sibs0 none h0life h0life (fun d' h => Or.inl h) h0all
+              | some k =>
+                exact hmultiS (sibs0.eraseIdx k) sibs0 (some k) (fun sd hsd => h0life sd (List.mem_of_mem_eraseIdx hsd)) h0life
+                  (fun d' h => (mem_eraseIdx_or_getElem? sibs0 k d' h).imp id (fun hg => ⟨k, rfl, hg⟩)) h0all
             next hp1 hp2 =>
               obtain ⟨hst1, hok1, hc1⟩ := setInstance_store
                 (logEv (alloc (bumpInv ra.1 d.ctor) 1 d.ctor ((bumpInv ra.1 d.ctor).invs d.ctor))
